@@ -22,7 +22,9 @@ from vk.gen import models as M
 
 class Model:
     def __init__(self, node, cfg=None):
-        self.node = M.to_tuple(node)
+        # a particle with maxOccurs=0 stands for no particle at all (XSD 1.0 3.9.2, XSD 1.1 3.9.2): it is not an empty
+        # branch of a choice; a choice left without particles matches nothing, an empty sequence matches the empty sequence
+        self.node = M.drop_absent(M.to_tuple(node))
         self.cfg = dict(cfg or {})
         self.subst = self.cfg.get('subst', 'plain')
         self.leaf_syms = {}    # lid -> frozenset(symbols)
@@ -388,6 +390,8 @@ def upa_glushkov(model, version, max_positions=600):
         k = e[0]
         if k == '1':
             return True, set(), set()
+        if k == '0':
+            return False, set(), set()     # a choice without particles: matches nothing, has no positions
         if k == 'L':
             if len(positions) >= max_positions:
                 raise TooBig()
